@@ -335,6 +335,8 @@ var c20Prefixes = []string{"", "l1\nl2\n", "{# c1\nc2 #}\n", "{{ \"s1\ns2\" }}",
 	// a byte order mark and other unusual bytes at the very start of the source
 	"\ufeff", "\ufeff\n", "\x00\xff ",
 	// line breaks between the tokens of an interpolated expression
+	// blank lines and indentation at the very start (an inline template is its own name: nothing of it may be cut off)
+	"\n\n  ", " \t", "\r\n\r\n",
 	"{{ \"s1#{ a\n }s2\" }}", "{{ \"#{ f(1,\n 2) }\" }}\n", "{% set q = \"x#{ a |\n up }»\" %}é ", "{{ \"#{\n[1,\n2]|join\n}\n#{ a\n~\na }\" }}"}
 
 func c20NewlineSites(toks []stok) []site {
@@ -469,8 +471,12 @@ func c20Run(c core.Case) core.Result {
 		}
 		// the same source parsed through environments (Env.Parse runs the registered node visitors over the tree - the
 		// Twig environment's auto-escaping wraps every print): the positions are still the source's
-		for ei, env := range []*stick.Env{stick.New(&stick.MemoryLoader{Templates: map[string]string{"t.html": src}}), twig.New(&stick.MemoryLoader{Templates: map[string]string{"t.html": src}})} {
-			etree, eerr, epan := tryEnvParse(env, "t.html")
+		for ei, env := range []*stick.Env{stick.New(&stick.MemoryLoader{Templates: map[string]string{"t.html": src}}), twig.New(&stick.MemoryLoader{Templates: map[string]string{"t.html": src}}), stick.New(nil), twig.New(nil)} {
+			ename := "t.html"
+			if ei >= 2 {
+				ename = src // the default StringLoader: the source is the name
+			}
+			etree, eerr, epan := tryEnvParse(env, ename)
 			if epan != "" {
 				return core.Violation("panic", fmt.Sprintf("Env.Parse of %q (environment %d) panicked: %s", src, ei, epan))
 			}
@@ -481,7 +487,7 @@ func c20Run(c core.Case) core.Result {
 			msg := c20CheckNodes(src, etree.Root())
 			c20Synth = false
 			if msg != "" {
-				return core.Violation("node-position", fmt.Sprintf("in %q parsed through Env.Parse of %s environment: %s", src, []string{"a core", "a Twig"}[ei], msg))
+				return core.Violation("node-position", fmt.Sprintf("in %q parsed through Env.Parse of %s environment: %s", src, []string{"a core", "a Twig", "a core (inline template)", "a Twig (inline template)"}[ei], msg))
 			}
 		}
 		return core.Okay(strings.Contains(src, "\n"), "ok")
@@ -620,7 +626,7 @@ func c20Levels(tier string) []core.Level {
 	}
 	items := c20Items()
 	lv := []core.Level{
-		{Name: fmt.Sprintf("node positions: corpus x 18 prefixes x every newline placement with <= %d deviation(s)", maxDev), Gen: func(emit func(core.Case)) {
+		{Name: fmt.Sprintf("node positions: corpus x 21 prefixes x every newline placement with <= %d deviation(s)", maxDev), Gen: func(emit func(core.Case)) {
 			for ii, it := range items {
 				sites := c20NewlineSites(stokens(it.src))
 				for pi := range c20Prefixes {
@@ -738,13 +744,15 @@ func c20Levels(tier string) []core.Level {
 				}
 			}
 		}},
-		{Name: "errors raised while loading a named template identify it: 6 broken templates x 20 names (incl. '%' sequences, spaces, non-ASCII, ' in ', names of 53..260 bytes, names that share a long prefix, a line break) x {direct, parse, include, extends, import, embed, use}", Gen: func(emit func(core.Case)) {
+		{Name: "errors raised while loading a named template identify it: 6 broken templates x 20 names (incl. '%' sequences, spaces, non-ASCII, ' in ', names of 53..260 bytes, names that share a long prefix, a line break, blanks or line breaks at either end) x {direct, parse, include, extends, import, embed, use}", Gen: func(emit func(core.Case)) {
 			broken := []string{"x{% if %}", "{{ a", "{% bogus %}", "{{ a $ }}", "t{% for i in x %}", "{% include %}"}
 			for _, b := range broken {
 				for _, name := range []string{"a", "a.html.twig", "dir/b.twig", "my tpl.twig", "100%.twig", "a%20b.twig", "%s", "report_%d.twig", "{0}.twig", "a\\b.twig", "ü€.twig", "a:b", "x in y.twig",
 					// long names (any length is a name), names that agree in their first 40 / 100 bytes, a name with a line break
 					"templates/admin/users/partials/address_form.html.twig", "templates/admin/users/partials/address_list.html.twig", strings.Repeat("d/", 60) + "x.twig", strings.Repeat("n", 255) + ".twig",
-					strings.Repeat("long-", 40) + "a", strings.Repeat("long-", 40) + "b", "first line\nsecond line.twig"} {
+					strings.Repeat("long-", 40) + "a", strings.Repeat("long-", 40) + "b", "first line\nsecond line.twig",
+					// names with blanks or line breaks at either end are names like any other
+					"bad.twig\n", "\tdir/bad.twig ", " lead", "trail ", "\n"} {
 					for _, via := range []string{"direct", "parse", "include", "extends", "import", "embed", "use"} {
 						emit(core.Case{Fam: "name", Src: b, Args: []string{name, via}})
 					}
